@@ -69,7 +69,7 @@ Fixpoint ct_stmt (c : chain) (s : stmt) : pass_res * chain :=
   | SWhile cnd b =>
       let c1 := push c in
       match b with
-      | Some b' => match ct_stmt c1 b' with (POk, c2) => (ct_expr c2 (Some cnd), c) | (v, _) => (v, c) end
+      | Some b' => match ct_expr c1 (Some cnd) with POk => (fst (ct_stmt c1 b'), c) | v => (v, c) end   (* condition first, then the body *)
       | None => (ct_expr c1 (Some cnd), c)
       end
   | SDo b cnd =>
